@@ -13,3 +13,9 @@ Print Assumptions C11_no_internal_error_holds.
 (* the aggregates of capacity loss do not depend on the order in which events were added *)
 Theorem C11_order_independent_aggregates : C07_perm. Proof. exact c07_perm. Qed.
 Print Assumptions C11_order_independent_aggregates.
+(* finishing events: the survivors find their own block under their new id (Spec/StatementsCarry.v) *)
+Require Import Boario.Spec.StatementsCarry Boario.Proofs.C11CarryProofs.
+Theorem C11_carry_ids_holds : C11_carry_ids. Proof. exact c11_carry_ids. Qed.
+Print Assumptions C11_carry_ids_holds.
+Theorem C11_carry_blocks_holds : C11_carry_blocks. Proof. exact c11_carry_blocks. Qed.
+Print Assumptions C11_carry_blocks_holds.
